@@ -167,7 +167,9 @@ where
     }
 
     fn call(&mut self, req: Req) -> Self::Future {
-        let mut inner = self.inner.clone();
+        // Take the instance that was driven to readiness; leave a fresh clone behind
+        let clone = self.inner.clone();
+        let mut inner = std::mem::replace(&mut self.inner, clone);
         let config = Arc::clone(&self.config);
 
         // Extract timeout from request before moving it
